@@ -276,6 +276,7 @@ pub fn gen_case(prop: &str, thorough: bool, weak: bool, rng: &mut Rng) -> Case {
                 prog.threads[t].ops.insert(at + i, o);
             }
         }
+        "C11" if rng.below(3) == 0 => return gen_c11_readonly(rng, cfg, thorough),
         "C16" => return crate::extras::gen_c16(rng, cfg, thorough),
         "C17" => return crate::extras::gen_c17(rng, cfg, thorough),
         _ => {}
@@ -353,6 +354,62 @@ fn gen_c08(rng: &mut Rng, weak: bool, thorough: bool) -> Case {
         cfg.probe_cap_base = 120;
         cfg.probe_cap_per_node = 0;
     }
+    Case {
+        cfg,
+        prog: Program {
+            conts,
+            threads,
+            final_order: rng.below(4) as u8,
+        },
+    }
+}
+
+/// C11 (bound): rounds of short-lived reader threads separated by joins, no writer anywhere.
+fn gen_c11_readonly(rng: &mut Rng, cfg: RunCfg, thorough: bool) -> Case {
+    let kind = choose(rng, &ALL_A);
+    let conts = vec![ContSpec { kind, init: Init::New }];
+    let rounds = 2 + rng.below(if thorough { 6 } else { 4 }) as usize;
+    let mut threads = vec![ThreadProg::default()];
+    let mut main_ops = Vec::new();
+    if rng.below(2) == 0 {
+        main_ops.push(Op::LoadDrop { c: 0 });
+    }
+    for _ in 0..rounds {
+        let k = 1 + rng.below(2) as usize;
+        let mut ids = Vec::new();
+        for _ in 0..k {
+            let mut ops = Vec::new();
+            if rng.below(3) == 0 {
+                ops.push(Op::TlsOp {
+                    ops: vec![Op::LoadDrop { c: 0 }],
+                });
+            }
+            for i in 0..(1 + rng.below(3)) {
+                ops.push(match rng.below(3) {
+                    0 => Op::Load { c: 0, g: i as u8 },
+                    1 => Op::LoadFull { c: 0, h: i as u8 },
+                    _ => Op::LoadDrop { c: 0 },
+                });
+            }
+            if rng.below(4) == 0 {
+                ops.push(Op::TlsOp {
+                    ops: vec![Op::LoadDrop { c: 0 }],
+                });
+            }
+            threads.push(ThreadProg { ops, top: false });
+            ids.push((threads.len() - 1) as u8);
+        }
+        for t in ids.iter() {
+            main_ops.push(Op::Spawn { t: *t });
+        }
+        if rng.below(3) == 0 {
+            main_ops.push(Op::LoadDrop { c: 0 });
+        }
+        for t in ids.iter() {
+            main_ops.push(Op::Join { t: *t });
+        }
+    }
+    threads[0].ops = main_ops;
     Case {
         cfg,
         prog: Program {
